@@ -24,7 +24,14 @@ import (
 	"pgregory.net/rapid"
 )
 
-const RepoAddr = "example.org/u"
+// Addr is the address of the universe's repository: an arbitrary host (found by probing path prefixes)
+// or, for WellKnown universes, a hosting service whose repository layout dawn knows.
+func (u *Universe) Addr() string {
+	if u.WellKnown {
+		return "github.com/u/r"
+	}
+	return "example.org/u"
+}
 
 // Tag is one tagged version of one project: a commit of the repository.
 type Tag struct {
@@ -42,12 +49,15 @@ type Universe struct {
 	Branches []int  `json:"branches,omitempty"` // branch i ("br<i>") points at commit Branches[i]
 	Untagged []int  `json:"untagged,omitempty"` // extra commits (no tag) appended after tag index (value = project touched)
 	Default  string `json:"default,omitempty"`
+	// WellKnown: the repository lives on a well-known hosting service (several projects of one repository
+	// are then found through one address)
+	WellKnown bool `json:"wellknown,omitempty"`
 }
 
 func ProjDir(i int) string { return fmt.Sprintf("p%d", i) }
 
 func (u *Universe) PathOf(t Tag) string {
-	return project.JoinPathVersion(path.Join(RepoAddr, ProjDir(t.Proj)), semver.Major(t.Version))
+	return project.JoinPathVersion(path.Join(u.Addr(), ProjDir(t.Proj)), semver.Major(t.Version))
 }
 
 func (u *Universe) MV(i int) module.Version {
@@ -103,7 +113,7 @@ func NewRepo(u *Universe) *Repo {
 	return r
 }
 
-func (r *Repo) Path() string { return RepoAddr }
+func (r *Repo) Path() string { return r.U.Addr() }
 func (r *Repo) DefaultRef(ctx context.Context) (string, error) {
 	if r.U.Default != "" {
 		return r.U.Default, nil
@@ -195,10 +205,10 @@ func (r *Repo) FetchRevision(ctx context.Context, projectPath string, rev vcs.Re
 	return project.WriteConfigFile(filepath.Join(dir, "dawn.toml"), cfg)
 }
 
-// Dialer returns an mvs.Dialer serving the repository at RepoAddr.
+// Dialer returns an mvs.Dialer serving the repository at its address.
 func (r *Repo) Dialer() mvs.Dialer {
 	return mvs.VerifDialFunc(func(ctx context.Context, kind, address string) (vcs.Repository, error) {
-		if address == RepoAddr {
+		if address == r.U.Addr() {
 			return r, nil
 		}
 		return nil, fmt.Errorf("no repository at %q", address)
@@ -211,12 +221,18 @@ func (r *Repo) Dialer() mvs.Dialer {
 type RootReq struct {
 	Name string `json:"name"`
 	Tag  int    `json:"tag"`
+	Ref  string `json:"ref,omitempty"` // "main" / "br<i>": require the tag's project at that branch head instead (often a pseudo-version)
 }
 
 func (u *Universe) RootConfig(reqs []RootReq) *project.Config {
 	cfg := &project.Config{Name: "root", Requirements: map[string]project.RequirementConfig{}}
 	for _, r := range reqs {
 		mv := u.MV(r.Tag % len(u.Tags))
+		if r.Ref != "" {
+			if v, ok := u.RefVersion(mv.Path, r.Ref); ok {
+				mv.Version = v
+			}
+		}
 		cfg.Requirements[r.Name] = project.RequirementConfig{Path: mv.Path, Version: mv.Version}
 	}
 	return cfg
@@ -227,6 +243,29 @@ func (u *Universe) tagIndex(mv module.Version) int {
 	for i := range u.Tags {
 		if u.MV(i) == mv {
 			return i
+		}
+	}
+	return -1
+}
+
+// pseudoTag returns the index of the tag whose project file a pseudo-version of mv.Path serves, or -1.
+func (u *Universe) pseudoTag(mv module.Version) int {
+	if !module.IsPseudoVersion(mv.Version) {
+		return -1
+	}
+	rev, err := module.PseudoVersionRev(mv.Version)
+	if err != nil {
+		return -1
+	}
+	dir := strings.TrimPrefix(project.TrimPathVersion(mv.Path), u.Addr()+"/")
+	for c := range u.Tags {
+		if commitID(c)[:12] != rev {
+			continue
+		}
+		for i := c; i >= 0; i-- {
+			if ProjDir(u.Tags[i].Proj) == dir {
+				return i
+			}
 		}
 	}
 	return -1
@@ -259,7 +298,12 @@ func (u *Universe) RefBuildList(reqs map[string]project.RequirementConfig) (map[
 		}
 		i := u.tagIndex(mv)
 		if i < 0 {
-			ok = false // not a tagged version: requirements unknown to the reference
+			// a pseudo-version names a commit: the project's file there is that of its latest tag at
+			// or before the commit
+			i = u.pseudoTag(mv)
+		}
+		if i < 0 {
+			ok = false // requirements unknown to the reference
 			continue
 		}
 		for _, ri := range u.Tags[i].Reqs {
@@ -291,7 +335,7 @@ func (u *Universe) RefVersion(p, ref string) (string, bool) {
 	}
 	_, major := project.SplitPathVersion(p)
 	// the project's directory must exist at that commit, else nothing can be fetched
-	dir := strings.TrimPrefix(project.TrimPathVersion(p), RepoAddr+"/")
+	dir := strings.TrimPrefix(project.TrimPathVersion(p), u.Addr()+"/")
 	exists := false
 	for i := c; i >= 0; i-- {
 		if ProjDir(u.Tags[i].Proj) == dir {
@@ -357,7 +401,7 @@ var projNames = []string{"lib", "core", "", "lib", "util", "p"}
 // GenUniverse draws a universe.
 func GenUniverse(t *rapid.T) Universe {
 	np := rapid.IntRange(2, 7).Draw(t, "nproj")
-	u := Universe{NProj: np}
+	u := Universe{NProj: np, WellKnown: rapid.IntRange(0, 2).Draw(t, "wellknown") == 2}
 	used := map[string]bool{}
 	ntags := rapid.IntRange(np, 3*np+2).Draw(t, "ntags")
 	for i := 0; i < ntags; i++ {
@@ -405,7 +449,11 @@ func GenRoot(t *rapid.T, u *Universe) []RootReq {
 			continue
 		}
 		seen[name] = true
-		out = append(out, RootReq{Name: name, Tag: rapid.IntRange(0, len(u.Tags)-1).Draw(t, "roottag")})
+		rr := RootReq{Name: name, Tag: rapid.IntRange(0, len(u.Tags)-1).Draw(t, "roottag")}
+		if rapid.IntRange(0, 4).Draw(t, "rootref") == 4 {
+			rr.Ref = rapid.SampledFrom([]string{"main", "br0", "br1"}).Draw(t, "rootrefname")
+		}
+		out = append(out, rr)
 	}
 	return out
 }
